@@ -186,7 +186,7 @@ func (p *plan) logNode(n node, l *lop) (err error) {
 		if p.addSource {
 			pc = lg.PCs[l.id%len(lg.PCs)]
 		}
-		return n.h.Handle(context.Background(), lg.NewRecordPC(logger.LevelInfo, lg.Msg(l.id), pc, l.own()...))
+		return n.h.Handle(context.Background(), lg.NewRecordAt(lg.TimeAt(l.id*7+l.node), logger.LevelInfo, lg.Msg(l.id), pc, l.own()...))
 	}
 	switch {
 	case l.noOwn && l.id%2 == 0:
@@ -207,6 +207,10 @@ func (p *plan) solo(nodeID int, dops map[int]*dop, l *lop) []byte {
 		chain = append(chain, dops[n])
 	}
 	n := p.root(&c)
+	if n.h != nil {
+		lg.Cold(n.h) // the reference: a fresh root whose caches (its own and package-level ones) are cold
+		c.Take()
+	}
 	func() {
 		defer func() { recover() }()
 		for i := len(chain) - 1; i >= 0; i-- {
